@@ -32,7 +32,12 @@ for pid in ids:
         continue
     na.append({"property_id": pid, "reason": na_reasons.get(pid, na_reasons["_default"])})
 commits = subprocess.run(["git", "-C", "/repo", "log", "--format=%H %s"], capture_output=True, text=True).stdout.strip().split("\n")
-hook_commits = [l.split()[0] for l in commits if " verif:" in " " + l.split(" ", 1)[1][:7] or l.split(" ", 1)[1].startswith("verif:")]
+def only_contract_files(h):
+    # a hook commit is one that touches nothing but the build-tag-guarded contract files
+    # (whatever its subject: the end-of-round driver commits such changes under its own message)
+    names = subprocess.run(["git", "-C", "/repo", "show", "--name-only", "--format=", h], capture_output=True, text=True).stdout.split()
+    return bool(names) and all(os.path.basename(n) == "zz_verif_contracts.go" for n in names)
+hook_commits = [l.split()[0] for l in commits if l.split(" ", 1)[1].startswith("verif:") or only_contract_files(l.split()[0])]
 man = {
     "version": 1,
     "setup_cmd": "./setup.sh",
